@@ -25,6 +25,8 @@ import (
 // witnesses runs the named probe.
 func witnesses(w *world, in *blockInput) {
 	switch in.Witness {
+	case "drain":
+		w.drainProbes()
 	case "dirty-cache":
 		w.dirtyProbes()
 	case "deploy-destroyed":
